@@ -15,19 +15,19 @@ static rc::Gen<Op> c02_op()
 	    {12, op_gen(RAWREQ, conn, rng(0, 26), rng(0, 27), rng(0, 15), zero(), zero(), jn)},
 	    {3, op_gen(BATCH, conn, rng(0, 5), rng(0, 7), zero(), zero(), zero(), jn)},
 	    {3, op_gen(ADD, conn, path, rc::gen::weightedOneOf<int>({{3, val}, {2, rc::gen::just(-1)}}), zero(), tmo, idmode(), jn)},
-	    {1, op_gen(REMOVE, conn, path, zero(), aim, zero(), idmode(), jn)},
+	    {3, op_gen(REMOVE, conn, path, zero(), rc::gen::element<int>(0, 2, 2), zero(), idmode(), jn)},
 	    {2, op_gen(CHANGE, conn, path, val, aim, zero(), idmode(), jn)},
 	    {2, op_gen(FETCH, conn, rng(0, 4), rng(0, 10), zero(), zero(), idmode(), jn)},
 	    {1, op_gen(UNFETCH, conn, rng(0, 4), zero(), zero(), zero(), idmode(), jn)},
 	    {2, op_gen(GET, conn, zero(), rng(0, 10), zero(), zero(), idmode(), jn)},
 	    {3, op_gen(SET, conn, path, val, aim, tmo, idmode(), jn)},
 	    {3, op_gen(CALL, conn, path, val, aim, tmo, idmode(), jn)},
-	    {4, op_gen(REPLY, conn, rng(0, 4), rng(0, 5), val, zero(), zero(), jn)},
+	    {6, op_gen(REPLY, conn, rng(0, 4), rc::gen::weightedElement<int>({{5, 0}, {2, 1}, {1, 2}, {1, 3}, {1, 4}}), val, zero(), zero(), jn)},
 	    {2, op_gen(MUTREQ, conn, rng(0, 9), path, rng(0, 12), val, idmode(), jn)},
 	    {1, op_gen(CONFIG, conn, rng(0, 5), zero(), zero(), zero(), idmode(), jn)},
 	    {1, op_gen(ADVANCE, zero(), rng(0, 13), zero(), zero(), zero(), zero(), nojoin())},
-	    {1, op_gen(CONNECT, zero(), rng(0, 3), rng(0, 4), zero(), zero(), zero(), nojoin())},
-	    {1, op_gen(END, conn, rng(0, 3), zero(), zero(), zero(), zero(), jn)},
+	    {2, op_gen(CONNECT, zero(), rng(0, 3), rng(0, 4), zero(), zero(), zero(), nojoin())},
+	    {3, op_gen(END, conn, rng(0, 3), zero(), zero(), zero(), zero(), jn)},
 	});
 }
 
